@@ -99,6 +99,20 @@ pub enum Op {
 pub struct Case {
     pub sources: Vec<Source>,
     pub ops: Vec<Op>,
+    /// modification time (seconds since the epoch) the simulated disk stamps on the file after the
+    /// operations; None = whatever the real clock says. A constant stamp is a disk with coarse
+    /// timestamps written twice within one tick, or files restored with their timestamps (cp -p,
+    /// tar, rsync -t): content changes, (path, length, mtime) need not.
+    #[serde(default)]
+    pub mtime_s: Option<u64>,
+    /// history entries only: instead of one explicit read, re-run every read of base scenario
+    /// (tier, seed, shard, base) in order, exactly as the shard did
+    #[serde(default)]
+    pub regen: Option<(String, u64, usize, usize)>,
+    /// with `regen`: stop after this many reads of the base scenario (the reads that preceded a
+    /// particular one)
+    #[serde(default)]
+    pub regen_reads: Option<usize>,
 }
 
 #[derive(Clone, Debug, PartialEq)]
@@ -322,7 +336,17 @@ fn apply(node: &Node, op: &Op, contents: &[Vec<u8>]) -> Node {
     }
 }
 
-fn materialise(dir: &Path, node: &Node) -> PathBuf {
+fn materialise(dir: &Path, node: &Node, mtime_s: Option<u64>) -> PathBuf {
+    let path = materialise_inner(dir, node);
+    if let (Node::Bytes(_), Some(t)) = (node, mtime_s) {
+        if let Ok(f) = std::fs::OpenOptions::new().write(true).open(&path) {
+            let _ = f.set_modified(std::time::UNIX_EPOCH + std::time::Duration::from_secs(t));
+        }
+    }
+    path
+}
+
+fn materialise_inner(dir: &Path, node: &Node) -> PathBuf {
     let path = dir.join("robot.yaml");
     let _ = std::fs::remove_file(&path);
     let _ = std::fs::remove_dir_all(&path);
@@ -437,7 +461,7 @@ pub fn judge_in(case: &Case, scratch: &Path) -> Vec<Fail> {
     for op in &case.ops {
         node = apply(&node, op, &contents);
     }
-    let path = materialise(scratch, &node);
+    let path = materialise(scratch, &node, case.mtime_s);
     let fault = kind_of_fault(&case.ops);
     match load(&path) {
         Err(msg) => {
@@ -578,11 +602,27 @@ impl Drop for Scratch {
 pub fn replay_all(case: &Value) -> Vec<(String, String)> {
     match serde_json::from_value::<Case>(case.clone()) {
         Ok(c) => {
-            let s = Scratch::new("replay");
+            // one scratch directory for everything this process replays: the history and the
+            // failing read use the same path, as they did in the shard
+            static REPLAY_DIR: std::sync::OnceLock<Scratch> = std::sync::OnceLock::new();
+            let s = REPLAY_DIR.get_or_init(|| Scratch::new("replay"));
+            if let Some((tier_name, seed, shard, base)) = &c.regen {
+                let t = tier(tier_name);
+                READ_LIMIT.with(|l| l.set(c.regen_reads));
+                let mut scratch_tally = Tally::default();
+                let mut seen = std::collections::BTreeSet::new();
+                run_base(*seed, *shard, *base, &t, &s.0, &mut scratch_tally, &mut seen);
+                READ_LIMIT.with(|l| l.set(None));
+                return Vec::new();
+            }
             judge_in(&c, &s.0).into_iter().map(|f| (f.clause, f.detail)).collect()
         }
         Err(e) => vec![("harness:bad-case".into(), e.to_string())],
     }
+}
+
+pub fn case_json(tier_name: &str, seed: u64, shard: usize, base: usize) -> Option<Value> {
+    Some(json!({"check": "C19", "case": Case { sources: vec![], ops: vec![], mtime_s: None, regen: Some((tier_name.to_string(), seed, shard, base)), regen_reads: None }}))
 }
 
 fn gen_params(w: &mut Rng) -> ParamSpec {
@@ -658,7 +698,22 @@ pub fn tier(name: &str) -> Tier {
     }
 }
 
-fn run_case(case: &Case, scratch: &Path, tally: &mut Tally, seen: &mut std::collections::BTreeSet<(String, String)>) {
+thread_local! {
+    /// index of the next read within the base scenario being run, and the read at which to stop
+    static READ_IDX: std::cell::Cell<usize> = const { std::cell::Cell::new(0) };
+    static READ_LIMIT: std::cell::Cell<Option<usize>> = const { std::cell::Cell::new(None) };
+    static REGEN_KEY: std::cell::RefCell<Option<(String, u64)>> = const { std::cell::RefCell::new(None) };
+}
+
+fn run_case(case: &Case, scratch: &Path, tally: &mut Tally, seen: &mut std::collections::BTreeSet<(String, String)>, origin: (usize, usize)) {
+    let idx = READ_IDX.with(|i| {
+        let k = i.get();
+        i.set(k + 1);
+        k
+    });
+    if READ_LIMIT.with(|l| l.get()).map(|l| idx >= l).unwrap_or(false) {
+        return;
+    }
     tally.evaluations += 1;
     let fault = kind_of_fault(&case.ops);
     // one count per fault kind actually applied in this read's history
@@ -678,8 +733,17 @@ fn run_case(case: &Case, scratch: &Path, tally: &mut Tally, seen: &mut std::coll
             clause: f.clause.clone(),
             signature: f.signature.clone(),
             detail,
-            case: json!({"check": "C19", "case": min}),
-            origin: None,
+            // fallback form: the read as it was made, preceded by the reads that came before it in
+            // its base scenario (a failure that depends on what the loader or the writer kept
+            // from earlier calls does not survive minimisation of the case)
+            case: match REGEN_KEY.with(|k| k.borrow().clone()) {
+                Some((tier_name, seed)) => json!({"check": "C19", "case": min, "fallback": {
+                    "check": "C19", "case": case,
+                    "history": [{"check": "C19", "case": Case { sources: vec![], ops: vec![], mtime_s: None, regen: Some((tier_name, seed, origin.0, origin.1)), regen_reads: Some(idx) }}],
+                }}),
+                None => json!({"check": "C19", "case": min}),
+            },
+            origin: Some(origin),
         });
     }
 }
@@ -706,7 +770,7 @@ fn minimise_case(case: &Case, f: &Fail, scratch: &Path) -> Case {
             node = apply(&node, op, &contents);
         }
         if let Node::Bytes(b) = node {
-            let t = Case { sources: vec![Source::Raw(b.clone())], ops: vec![Op::Write(0)] };
+            let t = Case { sources: vec![Source::Raw(b.clone())], ops: vec![Op::Write(0)], mtime_s: case.mtime_s, regen: None, regen_reads: None };
             if still(&t) {
                 cur = t;
                 // shrink the bytes: drop lines, then halves
@@ -717,7 +781,7 @@ fn minimise_case(case: &Case, f: &Fail, scratch: &Path) -> Case {
                     let lines: Vec<&[u8]> = bytes.split_inclusive(|c| *c == b'\n').collect();
                     for k in 0..lines.len() {
                         let cand: Vec<u8> = lines.iter().enumerate().filter(|(i, _)| *i != k).flat_map(|(_, l)| l.iter().copied()).collect();
-                        let t = Case { sources: vec![Source::Raw(cand)], ops: vec![Op::Write(0)] };
+                        let t = Case { sources: vec![Source::Raw(cand)], ops: vec![Op::Write(0)], mtime_s: case.mtime_s, regen: None, regen_reads: None };
                         if still(&t) {
                             cur = t;
                             progressed = true;
@@ -734,6 +798,172 @@ fn minimise_case(case: &Case, f: &Fail, scratch: &Path) -> Case {
     cur
 }
 
+/// Every read of base scenario (shard, base), in order. Pure function of (seed, shard, base, tier)
+/// and of whatever state the library keeps between calls.
+fn run_base(seed: u64, shard: usize, base: usize, t: &Tier, scratch: &Path, tally: &mut Tally, seen: &mut std::collections::BTreeSet<(String, String)>) {
+    READ_IDX.with(|i| i.set(0));
+    let mut w = Rng::derive(seed, shard as u64, base as u64, "c19.workload");
+    let pa = gen_params(&mut w);
+    let pb = gen_params(&mut w);
+    let src_a = if w.chance(0.5) { Source::ToYaml(pa.clone()) } else { Source::Model(pa.clone(), gen_variant(&mut w)) };
+    let src_b = if w.chance(0.5) { Source::ToYaml(pb.clone()) } else { Source::Model(pb.clone(), gen_variant(&mut w)) };
+    let sources = vec![src_a.clone(), src_b.clone()];
+    let la = content_of(&src_a).map(|c| c.len()).unwrap_or(0);
+    tally.bump(match &src_a { Source::ToYaml(_) => "bases_written_by_to_yaml", _ => "bases_written_by_model" }, 1);
+    if let Source::Model(_, v) = &src_a {
+        if v.integers { tally.bump("variant_integers", 1); }
+        if v.degrees { tally.bump("variant_deg", 1); }
+        if v.five { tally.bump("variant_five_entries", 1); }
+        tally.bump(&format!("variant_dof_place_{}", v.dof_place), 1);
+        if v.crlf { tally.bump("variant_crlf", 1); }
+        if v.block { tally.bump("variant_block_arrays", 1); }
+    }
+    if pa.dof == 5 { tally.bump("bases_dof5", 1); }
+    if tally.samples.len() < 2 {
+        tally.samples.push(json!({
+            "source": match &src_a { Source::ToYaml(_) => "Parameters::to_yaml", _ => "documented-format model writer" },
+            "content": String::from_utf8_lossy(&content_of(&src_a).unwrap_or_default()),
+            "ops": [format!("{:?}", Op::Write(0)), format!("{:?}", Op::CrashDuringWrite(1, 17))],
+        }));
+    }
+    // the simulated disk's timestamps: mostly a constant stamp (see Case::mtime_s)
+    let mtime_s = {
+        let mut d = Rng::derive(seed, shard as u64, base as u64, "c19.disk");
+        if d.chance(0.7) { Some(1_600_000_000u64) } else { None }
+    };
+    tally.bump(if mtime_s.is_some() { "bases_on_a_disk_with_constant_mtime" } else { "bases_on_a_disk_with_real_mtime" }, 1);
+    let mk = |ops: Vec<Op>| Case { sources: sources.clone(), ops, mtime_s, regen: None, regen_reads: None };
+    // history of the WRITER: the same geometry and offsets serialised twice in a row with other
+    // sign corrections / degrees of freedom (a robot and its mirrored or 5-DOF sibling; one object
+    // edited through its public fields between two to_yaml calls), and with one length changed
+    {
+        let mut sib = pa.clone();
+        match w.below(3) {
+            0 => {
+                let j = w.below(if sib.dof == 5 { 5 } else { 6 });
+                sib.signs[j] = -sib.signs[j];
+            }
+            1 => {
+                if sib.dof == 6 {
+                    sib.dof = 5;
+                    sib.signs[5] = 0;
+                } else {
+                    sib.dof = 6;
+                    sib.signs[5] = 1;
+                }
+            }
+            _ => {
+                let k = w.below(7);
+                sib.geo[k] += 0.125;
+            }
+        }
+        let two = Case { sources: vec![Source::ToYaml(pa.clone()), Source::ToYaml(sib.clone())], ops: vec![Op::Write(1)], mtime_s, regen: None, regen_reads: None };
+        tally.bump("history_to_yaml_of_a_sibling_right_after_the_original", 1);
+        run_case(&two, scratch, tally, seen, (shard, base));
+        let back = Case { sources: vec![Source::ToYaml(sib), Source::ToYaml(pa.clone())], ops: vec![Op::Write(1)], mtime_s, regen: None, regen_reads: None };
+        run_case(&back, scratch, tally, seen, (shard, base));
+    }
+    // fault-free configuration (run separately from the fault-injecting one)
+    run_case(&mk(vec![Op::Write(0)]), scratch, tally, seen, (shard, base));
+    run_case(&mk(vec![Op::Write(1), Op::Write(0)]), scratch, tally, seen, (shard, base));
+    tally.distinct.insert(simctx::mix(&[shard as u64, base as u64, 0]) as u128);
+    // enumerated faults
+    if base < t.exhaustive_bases {
+        for k in 0..=la {
+            run_case(&mk(vec![Op::CrashDuringWrite(0, k)]), scratch, tally, seen, (shard, base));
+            tally.distinct.insert(simctx::mix(&[shard as u64, base as u64, 1, k as u64]) as u128);
+        }
+        for bit in 0..la * 8 {
+            run_case(&mk(vec![Op::Write(0), Op::FlipBit(bit)]), scratch, tally, seen, (shard, base));
+            tally.distinct.insert(simctx::mix(&[shard as u64, base as u64, 2, bit as u64]) as u128);
+        }
+        tally.bump("bases_with_every_truncation_offset_and_bit_flip", 1);
+        for mask in 0..4u32 {
+            run_case(&mk(vec![Op::Write(1), Op::Torn(0, mask)]), scratch, tally, seen, (shard, base));
+            run_case(&mk(vec![Op::Torn(0, mask)]), scratch, tally, seen, (shard, base));
+            tally.distinct.insert(simctx::mix(&[shard as u64, base as u64, 3, mask as u64]) as u128);
+        }
+    }
+    for op in [Op::Remove, Op::ReplaceByDir] {
+        run_case(&mk(vec![Op::Write(0), op]), scratch, tally, seen, (shard, base));
+    }
+    if base % 3 == 0 {
+        run_case(&mk(vec![Op::Fifo(0)]), scratch, tally, seen, (shard, base));
+    }
+    run_case(&mk(vec![Op::Remove]), scratch, tally, seen, (shard, base));
+    run_case(&mk(vec![Op::Write(1), Op::OverwriteNoTruncate(0)]), scratch, tally, seen, (shard, base));
+    run_case(&mk(vec![Op::Write(0), Op::OverwriteNoTruncate(1)]), scratch, tally, seen, (shard, base));
+    tally.distinct.insert(simctx::mix(&[shard as u64, base as u64, 4]) as u128);
+    // random 1-3 operation sequences (swarm style)
+    for r in 0..t.random_faults {
+        let n = w.range_usize(1, 3);
+        let mut ops = vec![Op::Write(w.below(2))];
+        for _ in 0..n {
+            let op = match w.below(11) {
+                0 => Op::Write(w.below(2)),
+                1 => Op::CrashDuringWrite(w.below(2), w.below(la.max(1) + 1)),
+                2 => Op::OverwriteNoTruncate(w.below(2)),
+                3 => Op::Torn(w.below(2), w.below(4) as u32),
+                4 | 5 => Op::FlipBit(w.below(la.max(1) * 8)),
+                6 => Op::DupBlock(w.below(la.max(1)), w.range_usize(1, 64)),
+                7 => Op::ZeroFill(w.below(la.max(1)), w.range_usize(1, 64)),
+                8 => Op::InvalidUtf8(w.below(la.max(1))),
+                9 => Op::Remove,
+                _ => Op::ReplaceByDir,
+            };
+            ops.push(op);
+        }
+        run_case(&mk(ops), scratch, tally, seen, (shard, base));
+        tally.distinct.insert(simctx::mix(&[shard as u64, base as u64, 5, r as u64]) as u128);
+    }
+    // unusual-but-valid YAML scalars in place of one number of a complete file (no-panic clause)
+    if let Ok(text) = String::from_utf8(content_of(&src_a).unwrap_or_default()) {
+        let tokens = [".inf", "-.inf", ".nan", ".NaN", "+.INF", "1e400", "-1e400", "0x1F", "0o17", "1_000", "~", "null", "true", "\"0.5\"", "'0.5'", "!!float 1", "&a 1", "*a", "[1]", "{a: 1}", "1.", ".5", "+1", "1e", "deg(.inf)", "deg(1e400)", "deg()", "deg(", ")"];
+        // positions of numeric tokens: after ": " or inside arrays
+        let bytes = text.as_bytes();
+        let mut starts: Vec<(usize, usize)> = Vec::new();
+        let mut i = 0;
+        while i < bytes.len() {
+            let numeric = |c: u8| c.is_ascii_digit() || c == b'-' || c == b'.';
+            if numeric(bytes[i]) && (i == 0 || matches!(bytes[i - 1], b' ' | b'[' | b',' | b'(')) {
+                let mut j = i;
+                while j < bytes.len() && (numeric(bytes[j]) || bytes[j] == b'e') {
+                    j += 1;
+                }
+                if bytes[i..j].iter().any(|c| c.is_ascii_digit()) {
+                    starts.push((i, j));
+                }
+                i = j;
+            } else {
+                i += 1;
+            }
+        }
+        for _ in 0..t.random_faults / 3 {
+            if starts.is_empty() {
+                break;
+            }
+            let (a, b) = *w.pick(&starts);
+            let tok = *w.pick(&tokens);
+            let mut nb = bytes[..a].to_vec();
+            nb.extend_from_slice(tok.as_bytes());
+            nb.extend_from_slice(&bytes[b..]);
+            let case = Case { sources: vec![Source::Raw(nb)], ops: vec![Op::Write(0)], mtime_s, regen: None, regen_reads: None };
+            tally.bump("fault_unusual_yaml_scalar_substituted", 1);
+            run_case(&case, scratch, tally, seen, (shard, base));
+        }
+    }
+    // arbitrary byte strings for the no-panic clause
+    for r in 0..t.random_faults / 2 {
+        let len = w.below(200);
+        let alphabet: &[u8] = b"abc:[]{}-#\n \t'\"&*!|>%@`,?0123456789.deg()\xff\x00";
+        let bytes: Vec<u8> = (0..len).map(|_| if w.chance(0.9) { *w.pick(alphabet) } else { w.below(256) as u8 }).collect();
+        let case = Case { sources: vec![Source::Raw(bytes)], ops: vec![Op::Write(0)], mtime_s, regen: None, regen_reads: None };
+        tally.bump("raw_byte_strings", 1);
+        run_case(&case, scratch, tally, seen, (shard, base));
+        tally.distinct.insert(simctx::mix(&[shard as u64, base as u64, 6, r as u64]) as u128);
+    }
+}
+
 pub fn run(tier_name: &str, seed: u64) -> i32 {
     let t = tier(tier_name);
     let started = std::time::Instant::now();
@@ -743,130 +973,8 @@ pub fn run(tier_name: &str, seed: u64) -> i32 {
         let mut seen = std::collections::BTreeSet::new();
         for base in 0..t.bases_per_shard {
             report::progress(shard, base);
-            let mut w = Rng::derive(seed, shard as u64, base as u64, "c19.workload");
-            let pa = gen_params(&mut w);
-            let pb = gen_params(&mut w);
-            let src_a = if w.chance(0.5) { Source::ToYaml(pa.clone()) } else { Source::Model(pa.clone(), gen_variant(&mut w)) };
-            let src_b = if w.chance(0.5) { Source::ToYaml(pb.clone()) } else { Source::Model(pb.clone(), gen_variant(&mut w)) };
-            let sources = vec![src_a.clone(), src_b.clone()];
-            let la = content_of(&src_a).map(|c| c.len()).unwrap_or(0);
-            tally.bump(match &src_a { Source::ToYaml(_) => "bases_written_by_to_yaml", _ => "bases_written_by_model" }, 1);
-            if let Source::Model(_, v) = &src_a {
-                if v.integers { tally.bump("variant_integers", 1); }
-                if v.degrees { tally.bump("variant_deg", 1); }
-                if v.five { tally.bump("variant_five_entries", 1); }
-                tally.bump(&format!("variant_dof_place_{}", v.dof_place), 1);
-                if v.crlf { tally.bump("variant_crlf", 1); }
-                if v.block { tally.bump("variant_block_arrays", 1); }
-            }
-            if pa.dof == 5 { tally.bump("bases_dof5", 1); }
-            if tally.samples.len() < 2 {
-                tally.samples.push(json!({
-                    "source": match &src_a { Source::ToYaml(_) => "Parameters::to_yaml", _ => "documented-format model writer" },
-                    "content": String::from_utf8_lossy(&content_of(&src_a).unwrap_or_default()),
-                    "ops": [format!("{:?}", Op::Write(0)), format!("{:?}", Op::CrashDuringWrite(1, 17))],
-                }));
-            }
-            let mk = |ops: Vec<Op>| Case { sources: sources.clone(), ops };
-            // fault-free configuration (run separately from the fault-injecting one)
-            run_case(&mk(vec![Op::Write(0)]), &scratch.0, &mut tally, &mut seen);
-            run_case(&mk(vec![Op::Write(1), Op::Write(0)]), &scratch.0, &mut tally, &mut seen);
-            tally.distinct.insert(simctx::mix(&[shard as u64, base as u64, 0]) as u128);
-            // enumerated faults
-            if base < t.exhaustive_bases {
-                for k in 0..=la {
-                    run_case(&mk(vec![Op::CrashDuringWrite(0, k)]), &scratch.0, &mut tally, &mut seen);
-                    tally.distinct.insert(simctx::mix(&[shard as u64, base as u64, 1, k as u64]) as u128);
-                }
-                for bit in 0..la * 8 {
-                    run_case(&mk(vec![Op::Write(0), Op::FlipBit(bit)]), &scratch.0, &mut tally, &mut seen);
-                    tally.distinct.insert(simctx::mix(&[shard as u64, base as u64, 2, bit as u64]) as u128);
-                }
-                tally.bump("bases_with_every_truncation_offset_and_bit_flip", 1);
-                for mask in 0..4u32 {
-                    run_case(&mk(vec![Op::Write(1), Op::Torn(0, mask)]), &scratch.0, &mut tally, &mut seen);
-                    run_case(&mk(vec![Op::Torn(0, mask)]), &scratch.0, &mut tally, &mut seen);
-                    tally.distinct.insert(simctx::mix(&[shard as u64, base as u64, 3, mask as u64]) as u128);
-                }
-            }
-            for op in [Op::Remove, Op::ReplaceByDir] {
-                run_case(&mk(vec![Op::Write(0), op]), &scratch.0, &mut tally, &mut seen);
-            }
-            if base % 3 == 0 {
-                run_case(&mk(vec![Op::Fifo(0)]), &scratch.0, &mut tally, &mut seen);
-            }
-            run_case(&mk(vec![Op::Remove]), &scratch.0, &mut tally, &mut seen);
-            run_case(&mk(vec![Op::Write(1), Op::OverwriteNoTruncate(0)]), &scratch.0, &mut tally, &mut seen);
-            run_case(&mk(vec![Op::Write(0), Op::OverwriteNoTruncate(1)]), &scratch.0, &mut tally, &mut seen);
-            tally.distinct.insert(simctx::mix(&[shard as u64, base as u64, 4]) as u128);
-            // random 1-3 operation sequences (swarm style)
-            for r in 0..t.random_faults {
-                let n = w.range_usize(1, 3);
-                let mut ops = vec![Op::Write(w.below(2))];
-                for _ in 0..n {
-                    let op = match w.below(11) {
-                        0 => Op::Write(w.below(2)),
-                        1 => Op::CrashDuringWrite(w.below(2), w.below(la.max(1) + 1)),
-                        2 => Op::OverwriteNoTruncate(w.below(2)),
-                        3 => Op::Torn(w.below(2), w.below(4) as u32),
-                        4 | 5 => Op::FlipBit(w.below(la.max(1) * 8)),
-                        6 => Op::DupBlock(w.below(la.max(1)), w.range_usize(1, 64)),
-                        7 => Op::ZeroFill(w.below(la.max(1)), w.range_usize(1, 64)),
-                        8 => Op::InvalidUtf8(w.below(la.max(1))),
-                        9 => Op::Remove,
-                        _ => Op::ReplaceByDir,
-                    };
-                    ops.push(op);
-                }
-                run_case(&mk(ops), &scratch.0, &mut tally, &mut seen);
-                tally.distinct.insert(simctx::mix(&[shard as u64, base as u64, 5, r as u64]) as u128);
-            }
-            // unusual-but-valid YAML scalars in place of one number of a complete file (no-panic clause)
-            if let Ok(text) = String::from_utf8(content_of(&src_a).unwrap_or_default()) {
-                let tokens = [".inf", "-.inf", ".nan", ".NaN", "+.INF", "1e400", "-1e400", "0x1F", "0o17", "1_000", "~", "null", "true", "\"0.5\"", "'0.5'", "!!float 1", "&a 1", "*a", "[1]", "{a: 1}", "1.", ".5", "+1", "1e", "deg(.inf)", "deg(1e400)", "deg()", "deg(", ")"];
-                // positions of numeric tokens: after ": " or inside arrays
-                let bytes = text.as_bytes();
-                let mut starts: Vec<(usize, usize)> = Vec::new();
-                let mut i = 0;
-                while i < bytes.len() {
-                    let numeric = |c: u8| c.is_ascii_digit() || c == b'-' || c == b'.';
-                    if numeric(bytes[i]) && (i == 0 || matches!(bytes[i - 1], b' ' | b'[' | b',' | b'(')) {
-                        let mut j = i;
-                        while j < bytes.len() && (numeric(bytes[j]) || bytes[j] == b'e') {
-                            j += 1;
-                        }
-                        if bytes[i..j].iter().any(|c| c.is_ascii_digit()) {
-                            starts.push((i, j));
-                        }
-                        i = j;
-                    } else {
-                        i += 1;
-                    }
-                }
-                for _ in 0..t.random_faults / 3 {
-                    if starts.is_empty() {
-                        break;
-                    }
-                    let (a, b) = *w.pick(&starts);
-                    let tok = *w.pick(&tokens);
-                    let mut nb = bytes[..a].to_vec();
-                    nb.extend_from_slice(tok.as_bytes());
-                    nb.extend_from_slice(&bytes[b..]);
-                    let case = Case { sources: vec![Source::Raw(nb)], ops: vec![Op::Write(0)] };
-                    tally.bump("fault_unusual_yaml_scalar_substituted", 1);
-                    run_case(&case, &scratch.0, &mut tally, &mut seen);
-                }
-            }
-            // arbitrary byte strings for the no-panic clause
-            for r in 0..t.random_faults / 2 {
-                let len = w.below(200);
-                let alphabet: &[u8] = b"abc:[]{}-#\n \t'\"&*!|>%@`,?0123456789.deg()\xff\x00";
-                let bytes: Vec<u8> = (0..len).map(|_| if w.chance(0.9) { *w.pick(alphabet) } else { w.below(256) as u8 }).collect();
-                let case = Case { sources: vec![Source::Raw(bytes)], ops: vec![Op::Write(0)] };
-                tally.bump("raw_byte_strings", 1);
-                run_case(&case, &scratch.0, &mut tally, &mut seen);
-                tally.distinct.insert(simctx::mix(&[shard as u64, base as u64, 6, r as u64]) as u128);
-            }
+            REGEN_KEY.with(|k| *k.borrow_mut() = Some((tier_name.to_string(), seed)));
+            run_base(seed, shard, base, &t, &scratch.0, &mut tally, &mut seen);
         }
         tally
     });
@@ -889,5 +997,5 @@ pub fn run(tier_name: &str, seed: u64) -> i32 {
         }),
         exhaustive: false,
     };
-    report::finish(meta, tally, wall, &|v| replay_all(&v["case"]), &|shard, run| { let _ = (shard, run); None })
+    report::finish(meta, tally, wall, &|v| replay_all(&v["case"]), &|shard, run| case_json(tier_name, seed, shard, run))
 }
